@@ -450,7 +450,7 @@ func c10ConstGlobal(c *Ctx, gn string) {
 			continue
 		}
 		isInit := fn.Name() == "init" || strings.HasPrefix(fn.Name(), "init#")
-		for _, b := range fn.Blocks {
+		for _, b := range blocksIP(fn) {
 			for _, in := range b.Instrs {
 				for _, op := range in.Operands(nil) {
 					g, ok := (*op).(*ssa.Global)
@@ -684,7 +684,7 @@ func c10Support(c *Ctx) {
 	}
 	if fn := c.needFn(rule, "vault/api.(*AddressState).AuthorizeWithdrawal"); fn != nil {
 		var divs []ssa.Instruction
-		for _, b := range fn.Blocks {
+		for _, b := range blocksIP(fn) {
 			for _, in := range b.Instrs {
 				if bo, ok := in.(*ssa.BinOp); ok && bo.Op == token.QUO && strings.Contains(vstr(bo.Y), "LimitInterval") {
 					divs = append(divs, in)
@@ -702,7 +702,7 @@ func c10Support(c *Ctx) {
 	// genesis moves LastBlockFees into the common pool (row: disburseFeesVQ nEVQ)
 	if fn := c.needFn(rule, "consensus/cometbft/apps/staking.(*Application).initLastBlockFees"); fn != nil {
 		ok := false
-		for _, b := range fn.Blocks {
+		for _, b := range blocksIP(fn) {
 			for _, in := range b.Instrs {
 				if st, isSt := in.(*ssa.Store); isSt && strings.HasSuffix(vstr(st.Addr), "param:st.LastBlockFees") && strings.Contains(vstr(st.Val), "common/quantity.NewQuantity()") {
 					ok = true
